@@ -81,6 +81,14 @@ def cli_case(ctx, rng, sc):
     recs = F.rand_records(rng, nrec=rng.randint(1, 4), maxlen=400)
     for r in recs:
         r["name"] = r["name"].replace("HAP1_SCAFFOLD_", "scaf")
+    primary_mode = rng.random() < 0.12
+    if primary_mode:
+        # a combined map of three haplotypes of which one is curated (`Primary` tag): the other curated assemblies are merged into
+        # the all_haplotigs file by name_assemblies
+        recs = F.rand_records(rng, nrec=3, maxlen=300)
+        for i, r in enumerate(recs):
+            r["name"] = f"HAP{i+1}_SCAFFOLD_1"
+            r["seq"] = bytes(rng.choice(b"ACGT") for _ in range(rng.randint(30, 200)))
     wi = rng.choice([7, 60, 61])
     data = F.render(recs, wi, rng.choice([b"\n", b"\r\n"]), rng.random() < 0.8)
     d = sc.path / f"cli{rng.randint(0, 10**9)}"
@@ -118,6 +126,11 @@ def cli_case(ctx, rng, sc):
         return
     bpt = rng.choice(["1", "3", "10.75"])
     ptx, _ = R.pretext_script(rng, inp, bpt)
+    if primary_mode:
+        import conv
+        ptx = [conv.jscaffold(f"Scaffold_{i+1}", [conv.jfrag(0, s_["name"], 1, R.slen(s_["rows"]), 1, ["Painted"] + (["Primary"] if i == 0 else []))])
+               for i, s_ in enumerate(inp)]
+        bpt = "1"
     if not ptx:
         return
     lines = ["##agp-version\t<NA>", f"# HiC MAP RESOLUTION: {bpt} bp/texel"]
@@ -166,10 +179,15 @@ def cli_case(ctx, rng, sc):
                 body += F.spec_revcomp(piece) if f[8] == "-" else piece
         flush()
         got = fa_out.read_bytes()
-        if got != bytes(exp):
+        rec_names = [l[1:].decode() for l in got.split(b"\n") if l.startswith(b">")]
+        dup = len(set(rec_names)) != len(rec_names)
+        if got != bytes(exp) and not dup:        # with duplicate object names the AGP cannot be re-read object by object
             ctx.out.oracle_fail("cli-end-to-end", inp_desc, f"{fa_out.name} is not its AGP applied to the input FASTA")
-        if len(set(names)) != len(names):
-            ctx.out.oracle_fail("cli-end-to-end", inp_desc, f"record names not unique in {fa_out.name}")
+        if dup or len(set(names)) != len(names):
+            # F21: the `Primary` branch of name_assemblies merges ALL other curated assemblies into all_haplotigs; names are only
+            # unique within each of them
+            fnd = "F21-all-haplotigs-merge-duplicate-names" if ("all_haplotigs" in fa_out.name and primary_mode) else None
+            ctx.out.oracle_fail("cli-end-to-end", inp_desc, f"record names not unique in {fa_out.name}", finding=fnd)
 
 
 def run(ctx):
